@@ -120,6 +120,15 @@ def world(answers):
 
 # ------------------------------------------------------------------------------
 def node_name(style, i):
+    if style == 'hostlike':
+        # names which contain / are contained in the agent's own host name
+        h = ru.get_hostname()
+        cand = [h[:-1], h[1:], h[:3], h + '0', 'x' + h, h[2:5], h[:1], h + '.cluster.org']
+        cand = [c for k, c in enumerate(cand) if c and c != h and c != 'localhost'
+                and c not in cand[:k]]
+        if i < len(cand):
+            return cand[i]
+        return 'node%d' % (i + 1)
     if style == 'nid':
         return 'nid%05d' % (i + 7)
     if style == 'dash':
